@@ -15,6 +15,7 @@ def c08(ctx):
                history=True)
     run_script(ctx, gen.sweep_cc14_values(ctx.rng, step=ctx.q(2, 1)), "value-sweep-cc14")
     long_run_battery(ctx, ["cc14"])
+    run_script(ctx, gen.extreme_values(ctx.rng, "cc14", ctx.q(8000, 80000)), "extreme-values-cc14")
     # twin-free canary: corrupt one reported value / fabricate one report
     canary(ctx, trace, corrupt_out("cc14", op=("feed",), need_report=ctx.rng.random() < 0.5))
     ctx.rule = ("design: TLC fixpoint of machine x C08-monitor (all 128 controller numbers, abstract values, "
@@ -89,6 +90,7 @@ def c11(ctx):
                history=True)
     run_script(ctx, gen.sweep_pn_values(ctx.rng, "pn", step=ctx.q(3, 1)), "value-sweep-pn")
     long_run_battery(ctx, ["pn"])
+    run_script(ctx, gen.extreme_values(ctx.rng, "pn", ctx.q(8000, 80000)), "extreme-values-pn")
     canary(ctx, trace, corrupt_out("pn", op=("feed",), need_report=ctx.rng.random() < 0.5))
     ctx.rule = ("design: TLC fixpoint of machine x C11-monitor (all 8 contributing controllers + 11 others, "
                 "abstract values, other message types, reset); code: every TLC edge on all 16 channels x 3 "
@@ -166,6 +168,7 @@ def c14(ctx):
     run_script(ctx, gen.sweep_pn_values(ctx.rng, "poll", step=ctx.q(5, 1), to=ctx.rng.choice([0, 1, 5])), "value-sweep-poll")
     long_run_battery(ctx, ["poll"])
     far_time_battery(ctx)
+    run_script(ctx, gen.extreme_values(ctx.rng, "poll", ctx.q(8000, 80000), to=ctx.rng.choice([0, 1, 5])), "extreme-values-poll")
     canary(ctx, trace, corrupt_out("poll", op=("feed",), need_report=True))
     vacuity(ctx, ["feed.poll.two", "C14e.feed", "poll.late.pending", "feed.poll.report", "reset.poll"])
     ctx.rule = ("design: TLC fixpoint of machine x monitor over the malformed alphabet too (any contributing "
